@@ -18,6 +18,9 @@ HISTORY = {
     "C17-pub-fn-no-params-skipped-if-callee": "missed at first: the parameterless pub fn of rule PubFnNoParams was never called; rule PubFnNoParamsCalled (defined before / after its caller) and a C06 subject added",
     "C01-cast-wires-tuple-offset-target": "missed by the C01 command at first (C05 caught the compiler panic for 64-bit targets only): no value oracle existed for programs with unsuffixed literals; a differential oracle (every suffix subset vs the fully suffixed program) was added to family I and runs in both C05 and C01",
     "C06-struct-size-memo-thread-local": "missed at first: every compilation was observed in isolation; compilation histories (ordered pairs / triples of programs sharing names, one thread of a fresh process) added",
+    "C07-const-forward-reference-accepted": "missed at first: every corpus program with constants needed externally supplied values (compilation stopped at MissingConstant); a literal-only const chain was added to the C07 corpus and a ConstScope section (every identifier of a constant expression replaced by every constant name) to C17",
+    "C11-import-capacity-from-header": "missed at first: header numbers were only perturbed one at a time; all pairs of header positions x pairs of boundary numbers added (deviation bound 2 on the header) - which also exposed one more genuine importer overflow on the unchanged tree",
+    "C12-arrayconst-unspecified-not-cast": "missed at first by C12 (caught by C05 / C01 once const-sized repeat templates were added to family I, which also exposed that compile() dropped const sizes): use template RepeatLet added to C12",
     "C17-match-arms-share-scope": "missed at first: UseAfterScope only covered loop variables and block locals; replaced by a reference model of lexical scoping (every use x every name bound elsewhere but not in scope)",
 }
 rows = []
